@@ -491,7 +491,7 @@ def cases(rng, tier):
 
 def oracle(line, out, mode):
     if api_common.is_api(line):
-        return api_common.oracle(line, out)
+        return api_common.oracle(line, out, inv=inv, valid=valid, wf=wf)
     try:
         parsed = parse_line(line)
     except (AssertionError, IndexError, ValueError):
@@ -549,7 +549,10 @@ def oracle(line, out, mode):
 
 
 def same(line, io, mo):
-    return api_common.same(line, io, mo)
+    """Equality with the model is demanded where the property forces the answer.  Where the implementation has latitude - every `API`
+    line, and `OPS` lines whose start state or arguments are made by BundleBuilder / the public constructors (BUILD, BUILDP, ADDC: a
+    constructor may normalise its arguments) - the oracle alone judges (invariant after every step, payload, validity, round trip)."""
+    return api_common.same(line, io, mo) or any(k in line for k in (" ; BUILD", " ; ADDC "))
 
 
 def _sig(ops):
@@ -559,7 +562,7 @@ def _sig(ops):
 
 def classify(line, out):
     if api_common.is_api(line):
-        tag = "strict" if api_common.strict(line) else ("observation-differs-from-documentation" if api_common.observed_difference(line, out) else "observation")
+        tag = "differs-from-documentation" if api_common.observed_difference(line, out) else "as-documented"
         return "API " + " ".join(line.split()[1:3][:1 if line.split()[1] != "BLK" else 2]) + " " + (out or "").split(" ")[0] + " " + tag
     try:
         clock, b0, ops = parse_line(line)
